@@ -78,6 +78,10 @@ def main():
                 print((out0 if rc0 else out1 if rc1 else out2)[-1500:])
         finally:
             shutil.rmtree(wt, ignore_errors=True)
+    if "--confirm-only" in sys.argv:
+        shutil.rmtree(backup, ignore_errors=True)
+        json.dump(meta, open(meta_path, "w"), indent=1)
+        return 0 if meta.get("confirmed") else 1
     # run the checks on /repo with the patch applied
     rc, out = sh(f"git apply {patch}", cwd=REPO)
     if rc != 0:
